@@ -2,6 +2,7 @@ import ScenicModel.Lemmas.SimTop
 import ScenicModel.Gen.RunOrder
 import ScenicModel.Props.C12Co
 import ScenicModel.Props.C12Sub
+import ScenicModel.Props.C12Stop
 /-! # C12 — simulation steps run in the documented order and stop at the documented step
 
 Property theorems about the executable model `Scenic.SimLoop.simulate`
